@@ -283,6 +283,7 @@ func init() {
 	}
 	opaqueIfSym("(github.com/ovh/kmip-go/ttlv.Type).String")
 	opaqueIfSym("github.com/ovh/kmip-go/ttlv.TagString")
+	opaqueIfSym("github.com/ovh/kmip-go/ttlv.EnumStr")
 
 	// errors
 	I["errors.Is"] = func(in *Interp, caller *frame, fn *ssa.Function, args []Value) Value {
